@@ -164,6 +164,18 @@ func TestC19(t *testing.T) {
 				continue
 			}
 			tail := fmt.Sprintf("return %d", st)
+			if st == 0 {
+				// a handler runs in its own subshell: leaving it with exit, relaxing the strict mode or changing
+				// IFS there concerns that handler only
+				switch rng.IntN(10) {
+				case 0:
+					tail = "exit 0"
+				case 1:
+					tail = "set +e\n  return 0"
+				case 2:
+					tail = "IFS=$'\\n'\n  return 0"
+				}
+			}
 			if st == 101 {
 				tail = fmt.Sprintf("false\n  echo \"CONTINUED-AFTER-FAILED-COMMAND|%s\" >> %s\n  return 0", h, trace)
 			}
